@@ -304,10 +304,15 @@ def spec_recurrenceplot():
 def spec_recurrencenetwork():
     from pyunicorn.timeseries import RecurrenceNetwork
 
-    def make(rng, mode=("threshold", 1.25)):
+    def make(rng, mode=("threshold", 1.25), variant=None):
         n = rng.choice([10, 12])
         ts = np.array([rng.randrange(0, 9) / 2 for _ in range(n)])
-        o = RecurrenceNetwork(ts, metric="supremum", silence_level=3, **{mode[0]: mode[1]})
+        kw = {}
+        if variant == "missing_values":     # state vectors with missing values are left out of
+            ts[rng.randrange(1, n - 1)] = np.nan    # the network by the constructor
+            kw = {"missing_values": True}
+        o = RecurrenceNetwork(ts, metric="supremum", silence_level=3, **{mode[0]: mode[1]}, **kw)
+        o._verif_kw = kw
         o._verif = tuple(mode)
         o._verif_ts = ts
         o._verif_explicit_w = False
@@ -315,7 +320,8 @@ def spec_recurrencenetwork():
 
     def twin(o):
         kind, val = o._verif
-        t = RecurrenceNetwork(o._verif_ts, metric=o.metric, silence_level=3, **{kind: val})
+        t = RecurrenceNetwork(o._verif_ts, metric=o.metric, silence_level=3, **{kind: val},
+                              **getattr(o, "_verif_kw", {}))
         if o._verif_explicit_w:
             t.node_weights = o.node_weights.copy()
         return t
@@ -350,6 +356,8 @@ def spec_recurrencenetwork():
            "set_fixed_local_recurrence_rate": other("local_recurrence_rate", (0.2, 0.4, 0.6),
                                                     "set_fixed_local_recurrence_rate")}
     return dict(cls=RecurrenceNetwork, make=make, twin=twin, mutators=mut, ctor_modes=RP_MODES,
+                ctor_variants=[{"variant": "missing_values"},
+                               {"variant": "missing_values", "mode": ("local_recurrence_rate", 0.4)}],
                 summary=SUMMARY_NET + ["recurrence_matrix()", "recurrence_rate()",
                                        "determinism()", "laminarity()"],
                 argsets={})
@@ -1479,6 +1487,20 @@ def _run(ctx):
     unexercised, n_mutators = [], 0
     edge_reqs, edge_obs = [], []
 
+    import time as _time
+    stage_s = {}
+
+    class _T:
+        def __init__(self, name):
+            self.name = name
+
+        def __enter__(self):
+            self.t0 = _time.time()
+
+        def __exit__(self, *a):
+            stage_s[self.name] = round(stage_s.get(self.name, 0.0) + _time.time() - self.t0, 2)
+    ctx.extra["stage_seconds"] = stage_s
+
     for cname, mk in SPECS.items():
         spec = mk()
         cls = spec["cls"]
@@ -1567,20 +1589,25 @@ def _run(ctx):
                              {"class": cname, "attribute": expr, "mutator": oname,
                               "observed": brief(a), "fresh": brief(b)})
         # ---- ordered pairs of mutators (round 3) ---------------------------------------------
-        two_step_histories(ctx, cname, spec, usable, quick)
+        with _T("two-step"):
+            two_step_histories(ctx, cname, spec, usable, quick)
         # ---- round 4: ALL ordered pairs, constructor modes, triples: structure + summaries -----
-        MD.structural_histories(ctx, cname, spec, quick, eval_summary, same, brief)
+        with _T("structural"):
+            MD.structural_histories(ctx, cname, spec, quick, eval_summary, same, brief)
         # ---- every translator-known public mutator (round 3) --------------------------------
-        invokers, missing = derive_invokers(ctx, cname, spec, t)
-        unexercised += missing
-        done = generic_stage(ctx, cname, spec, t, usable, invokers, quick)
+        with _T("generic"):
+            invokers, missing = derive_invokers(ctx, cname, spec, t)
+            unexercised += missing
+            done = generic_stage(ctx, cname, spec, t, usable, invokers, quick)
         unexercised += [f"{cname}.{o} (never ran)" for o in invokers if o not in done]
         n_mutators += len(t.get("mutators", {}))
         # ---- translator sandwich -----------------------------------------------------------
-        nck, bad_sw = sandwich(ctx, cname, spec, t, usable, invokers)
+        with _T("sandwich"):
+            nck, bad_sw = sandwich(ctx, cname, spec, t, usable, invokers)
         sw_checked += nck
         sw_bad += bad_sw
-        r_, o_ = call_edges(ctx, cname, spec, mnames, usable, quick)
+        with _T("call-edges"):
+            r_, o_ = call_edges(ctx, cname, spec, mnames, usable, quick)
         edge_reqs += r_
         edge_obs += o_
         # ---- hit/miss correspondence: a fresh object per (query, mutator) -------------------
